@@ -4,7 +4,7 @@
 use super::c05::Harness;
 use super::e1common::{self, DataProp, SpecRun};
 use crate::explore::e1::World;
-use crate::explore::multiworld::{mcmd, MAct, MultiSpec, MultiWorld};
+use crate::explore::multiworld::{mcmd, mpipe, MAct, MultiSpec, MultiWorld};
 use crate::model::conn::FORWARD_SCRIPT;
 use crate::pool::{Outcome, Pool, WorkerIo};
 use crate::report::{Deviation, RunReport};
@@ -35,6 +35,13 @@ fn acts() -> Vec<MAct> {
     for c in [vec!["SELECT", "1"], vec!["SET", "k", "w"], vec!["DEL", "k"], vec!["FLUSHDB"], vec!["RPUSH", "k", "z"]] {
         a.push(mcmd(1, &c));
     }
+    // the selection changes in the middle of one write: what follows a SELECT in the same read runs in the new database
+    // (a seeded change read the selected database once per read instead of once per command)
+    a.push(mpipe(0, &[&["SELECT", "1"], &["SET", "k", "p1"]]));
+    a.push(mpipe(0, &[&["SELECT", "15"], &["LPUSH", "k", "p15"], &["SELECT", "0"], &["INCR", "n"]]));
+    a.push(mpipe(0, &[&["MULTI"], &["SELECT", "1"], &["DEL", "k"], &["EXEC"], &["SET", "k", "after-exec"]]));
+    a.push(mpipe(0, &[&["SELECT", "1"], &["EVAL", FORWARD_SCRIPT, "0", "SET", "k", "pe"], &["FLUSHDB"]]));
+    a.push(mpipe(0, &[&["SELECT", "16"], &["SET", "k", "refused-select"]]));
     a
 }
 
